@@ -427,6 +427,34 @@ def _significant_lines(code: str) -> Sequence[str]:
     return [line.rstrip() for line in code.splitlines() if line.strip()]
 
 
+def _shares_call_parentheses(source: str, rng: core.Range, code: str) -> bool:
+    """Is source[rng] a generator expression written with the parentheses of a call, f(i for i in x)?
+
+    CPython gives such a generator the position of the call's parentheses, so a replacement of that
+    range removes them."""
+    if not (code.startswith("(") and code.endswith(")")):
+        return False
+    before = source[: rng.start].rstrip()
+    if not before or not (before[-1].isalnum() or before[-1] in "_)]}\"'"):
+        return False  # nothing that could be called in front of the parenthesis
+    try:
+        expression = ast.parse(code, mode="eval").body
+    except (SyntaxError, ValueError):
+        return False
+    if not isinstance(expression, ast.GeneratorExp):
+        return False
+    # (i for i in x) parses the same with and without a second pair of parentheses, but only the
+    # sole argument of a call is written without its own pair: ((i for i in x)) is not this case.
+    inner = code[1:-1].strip()
+    if inner.startswith("(") and inner.endswith(")"):
+        try:
+            if isinstance(ast.parse(inner, mode="eval").body, ast.GeneratorExp):
+                return False
+        except (SyntaxError, ValueError):
+            pass
+    return True
+
+
 def _do_rewrite(
     source: str, rewrite: _Rewrite, *, fix_function_name: str = "", scheduled: bool = False
 ) -> str:
@@ -473,6 +501,19 @@ def _do_rewrite(
             # A position on the (empty) line after the last line: the columns before it do not
             # exist in the source, so the indentation has to be written out.
             new_code = " " * (old.start - len(source)) + new_code
+
+        if new_code.strip() and _shares_call_parentheses(source, old, code):
+            # The replaced text is a generator expression whose parentheses are those of the call it
+            # is the only argument of: f(i for i in x).  Unless what replaces it is such a generator
+            # again, the call must get its parentheses back: f(y), not fy.
+            parenthesized = "(" + new_code + ")"
+            plain_candidate = source[: old.start] + new_code + source[old.end :]
+            parenthesized_candidate = source[: old.start] + parenthesized + source[old.end :]
+            if core.is_valid_python(parenthesized_candidate) and not (
+                core.is_valid_python(plain_candidate)
+                and _sources_equivalent(plain_candidate, parenthesized_candidate)
+            ):
+                new_code = parenthesized
 
         new_code = _pad_braces(source, old.start, old.end, new_code)
         candidate = source[: old.start] + new_code + source[old.end :]
